@@ -98,7 +98,7 @@ type EventBus struct {
 	afterPublish     PublishHook
 	beforePublishCtx PublishHookContext
 	afterPublishCtx  PublishHookContext
-	wg               sync.WaitGroup
+	wg               asyncTracker
 
 	// Optional persistence fields (nil if not using persistence)
 	store                   EventStore
@@ -114,6 +114,48 @@ type EventBus struct {
 
 	// Optional observability (metrics & tracing)
 	observability Observability
+}
+
+// asyncTracker counts the async handlers in flight. It has the Add/Done/Wait
+// shape of sync.WaitGroup but, unlike a WaitGroup, may be incremented from zero
+// while another goroutine is waiting: Publish to an async handler concurrent
+// with Wait is legal use of the bus, whereas WaitGroup treats that as misuse
+// (a data race, and at times the panic "WaitGroup is reused before previous
+// Wait has returned").
+type asyncTracker struct {
+	mu   sync.Mutex
+	n    int
+	idle chan struct{} // closed when n returns to zero; nil while n == 0
+}
+
+func (t *asyncTracker) Add(delta int) {
+	t.mu.Lock()
+	if t.n == 0 {
+		t.idle = make(chan struct{})
+	}
+	t.n += delta
+	t.mu.Unlock()
+}
+
+func (t *asyncTracker) Done() {
+	t.mu.Lock()
+	t.n--
+	if t.n == 0 {
+		close(t.idle)
+		t.idle = nil
+	}
+	t.mu.Unlock()
+}
+
+// Wait blocks until the handlers that were in flight when it was called, and
+// everything they started meanwhile, have finished.
+func (t *asyncTracker) Wait() {
+	t.mu.Lock()
+	idle := t.idle
+	t.mu.Unlock()
+	if idle != nil {
+		<-idle
+	}
 }
 
 // TypeNamer is an optional interface that events can implement to provide
